@@ -32,7 +32,7 @@ OPS = ["read_shape", "read_size", "read_points", "read_cells", "read_axes", "cop
 
 
 def generate(tape, tier="quick"):
-    sp = gen_structured(tape)
+    sp = gen_structured(tape, big_coords=True)
     n = tape.weighted([(3, 3), (6, 4), (10, 2)])
     ops = []
     for _ in range(n):
@@ -168,9 +168,11 @@ def _execute(sc):
         elif k == "to_unstructured":
             u = g.to_unstructured()
             size = int(np.prod(m.data_shape()))
-            if tuple(u.data_shape) != (size,) or not np.allclose(u.data_points, g.data_points) \
-                    or not np.array_equal(u.cells, g.cells) or not np.allclose(u.points, g.points) \
-                    or not np.allclose(u.cell_centers, g.cell_centers) or u.order != g.order \
+            # (the cast moves nothing: coordinates are compared to a billionth of the cell size, not relative to
+            # their magnitude)
+            if tuple(u.data_shape) != (size,) or not np.allclose(u.data_points, g.data_points, rtol=0, atol=1e-9) \
+                    or not np.array_equal(u.cells, g.cells) or not np.allclose(u.points, g.points, rtol=0, atol=1e-9) \
+                    or not np.allclose(u.cell_centers, g.cell_centers, rtol=0, atol=1e-9) or u.order != g.order \
                     or len(u.cell_types) != len(u.cells) or int(u.cell_count) != len(u.cells) \
                     or not np.array_equal(u.cell_types, g.cell_types):
                 v("grid-unstructured", "cast", f"{tag}: unstructured cast does not preserve points/cells/data points")
@@ -187,7 +189,7 @@ def _execute(sc):
                 u = src_g.to_unstructured()
                 size = int(np.prod(m.data_shape()))
                 if u.data_location != g.data_location or tuple(u.data_shape) != (size,) or \
-                        not np.allclose(u.data_points, g.data_points):
+                        not np.allclose(u.data_points, g.data_points, rtol=0, atol=1e-9):
                     v("grid-unstructured", "cast-after-mutation", f"{tag}: a cast taken after an earlier cast had been "
                       f"relocated by its holder no longer reflects the grid (location {u.data_location} vs {g.data_location})")
                     break
